@@ -259,6 +259,7 @@ class Interp:
         self.repo = repo_root
         self.roots = [repo_root] + list(extra_roots)
         self.modules = {}
+        self.tracing = None      # fxtrace.TraceCtx while a torch.fx Tracer model executes a forward on Proxy values
         self.touched = {}        # (relpath, qualname) -> sha1 of the function source: functions actually executed
         self.summaries = {}      # (dotted module, qualname) -> host callable(interp, clo, args, kwargs)
         self.invariants = {}     # (qualname, loop ordinal) -> spec (mode B)
@@ -383,10 +384,15 @@ class Interp:
         return isinstance(o, Obj) and self.libs['torch'].nn.Module in o.cls.mro()
 
     def getattr(self, o, name):
+        if self.tracing is not None and type(o).__name__ in ('Proxy', 'ProxyAttr'):
+            from . import fxtrace as FT
+            return FT.ProxyAttr(o if isinstance(o, FT.Proxy) else o.value(), name)
         if isinstance(o, Obj):
             a = o.attrs
             if name in a:
                 return a[name]
+            if name == '__module__':
+                return o.cls.mod.dotted if isinstance(o.cls, ClassInfo) else 'torch.' + '.'.join(o.cls.name.split('.')[:-1] + ['modules'])
             if '_parameters' in a:
                 for d in ('_parameters', '_buffers', '_modules'):
                     dd = a.get(d)
@@ -577,7 +583,28 @@ class Interp:
             raise RaiseEx(TypeError(f'{cls.name}() takes no arguments'))
         return o
 
+    def _trace_call(self, tr, f, args, kwargs):
+        """torch.fx tracing in progress: calls that involve Proxy values become graph nodes"""
+        from . import fxtrace as FT
+        if isinstance(f, FT.ProxyAttr):
+            return tr.call_method(f, args, kwargs)
+        if isinstance(f, Obj):
+            if '_modules' in f.attrs:
+                r = tr.call_module(f, args, kwargs)
+                if r is not None:
+                    return r
+            return _NOTFOUND
+        if isinstance(f, (Bound, Closure, PyBound, PyClassMethod, ClassInfo, StubClass, SymCallable)):
+            return _NOTFOUND
+        if id(f) in self.fx_functions and (tr.has_proxy(args) or tr.has_proxy(kwargs)):
+            return tr.call_function(f, args, kwargs)
+        return _NOTFOUND
+
     def call(self, f, args, kwargs):
+        if self.tracing is not None:
+            r = self._trace_call(self.tracing, f, args, kwargs)
+            if r is not _NOTFOUND:
+                return r
         if isinstance(f, Bound):
             return self.call_closure(f.clo, [f.obj] + list(args), kwargs)
         if isinstance(f, Closure):
@@ -759,6 +786,8 @@ class Interp:
             raise RaiseEx(e)
 
     def getitem(self, o, k):
+        if self.tracing is not None and type(o).__name__ in ('Proxy', 'ProxyAttr'):
+            return self.tracing.getitem(o, k)
         if isinstance(o, Obj):
             c, mem = self.find_member(o.cls, '__getitem__')
             if mem is None:
@@ -1101,6 +1130,8 @@ class Interp:
     # ------------------------------------------------------------------ operators
     def binop(self, op, a, b):
         t = type(op)
+        if self.tracing is not None and (self.tracing.has_proxy(a) or self.tracing.has_proxy(b)) and not isinstance(a, (list, tuple)):
+            return self.tracing.binop(t.__name__, a, b)
         if isinstance(a, Obj) or isinstance(b, Obj):
             return self.obj_binop(op, a, b)
         if isinstance(a, Tensor) or isinstance(b, Tensor):
